@@ -25,8 +25,8 @@ func init() {
 			"x plaintext length 0..4 blocks+1 exhaustively (x contents zeros/0xFF/ending 0x00,0x01,0x10/random) and random lengths to 64 KiB x nonce {nil, supplied}. Each case runs three clauses: package decrypts its own (serialised and re-parsed) output; " +
 			"package decrypts the stdlib reference's ciphertext; reference decrypts the package's ciphertext. Plus wrong-size/wrong-type keys must error and a relabelled DigestMethod must fail. Non-trivial = a case in which at least one side produced a ciphertext that the other side was asked to decrypt; distinct by (algorithms, key, length, content class, nonce).",
 		Assumptions: []string{"crypto/aes, crypto/des, crypto/cipher, crypto/rsa are correct", "internal/refenc follows the W3C recommendation (CBC: IV prefix + xmlenc padding; GCM: 12-byte nonce prefix, 16-byte tag, no padding)", "OAEP uses the DigestMethod hash also for MGF1 (crypto/rsa convention); MGF1-SHA1 peers are an observation without verdict"},
-		FloorQuick:  3000,
-		FloorThor:   50000,
+		FloorQuick:  2500,
+		FloorThor:   8000,
 		Run:         runC10,
 		LevelText:   "The real Encrypt/Decrypt code is executed on an exhaustive small-length lattice and random long plaintexts for every algorithm combination the package offers, and each output is cross-decrypted by an independent stdlib reference (and vice versa) after going through XML text. Held-on-observed; appropriate because the algorithms are deterministic given key/IV and the defects of interest (padding, IV, nonce, registry) show at specific lengths/algorithms that the lattice enumerates.",
 		LevelNote:   "Trusts Go crypto primitives and the 250-line reference in internal/refenc.",
